@@ -605,8 +605,136 @@ func (g *txnGen) genOp() OperationJ {
 func genTxn(rng *rand.Rand, ts TxnSchema, sh *shadow, nops int) TxnJ {
 	g := &txnGen{rng: rng, ts: ts, sh: sh, named: map[string]string{}, inserted: map[string][]string{}}
 	var t TxnJ
+	// index traffic: values of an index moving between existing rows inside one transaction, and
+	// inserts that claim the index values of an existing row (must be rejected unless that row goes)
+	switch rng.Intn(12) {
+	case 0:
+		t.Ops = append(t.Ops, g.genIndexMove()...)
+	case 1:
+		if op, ok := g.genIndexClaim(); ok {
+			t.Ops = append(t.Ops, op)
+		}
+	case 2, 3:
+		// a column of an existing row goes back to its default value (by update, or by deleting
+		// every element / key): the encodings that leave default values out must still say so
+		if op, ok := g.genBackToDefault(); ok {
+			t.Ops = append(t.Ops, op)
+		}
+	}
 	for i := 0; i < nops; i++ {
 		t.Ops = append(t.Ops, g.genOp())
 	}
 	return t
+}
+
+// indexedTable: a table with a schema index and at least n rows in the shadow
+func (g *txnGen) indexedTable(n int) (TableSpec, []string, bool) {
+	var cands []TableSpec
+	for _, t := range g.ts.Spec.Tables {
+		if len(t.Indexes) > 0 && len(g.sh.rows[t.Name]) >= n {
+			cands = append(cands, t)
+		}
+	}
+	if len(cands) == 0 {
+		return TableSpec{}, nil, false
+	}
+	t := cands[g.rng.Intn(len(cands))]
+	var uuids []string
+	for u := range g.sh.rows[t.Name] {
+		uuids = append(uuids, u)
+	}
+	sort.Strings(uuids)
+	g.rng.Shuffle(len(uuids), func(i, j int) { uuids[i], uuids[j] = uuids[j], uuids[i] })
+	return t, uuids, true
+}
+
+func byUUID(u string) []WCondJ { return []WCondJ{{Col: "_uuid", Fn: "==", Val: VA(AU(u))}} }
+
+// genIndexMove: two rows exchange (or rotate) the values of an index; the final
+// view is free of duplicates although every intermediate state has one
+func (g *txnGen) genIndexMove() []OperationJ {
+	t, uuids, ok := g.indexedTable(2)
+	if !ok {
+		return nil
+	}
+	idx := t.Indexes[g.rng.Intn(len(t.Indexes))]
+	a, b := g.sh.rows[t.Name][uuids[0]], g.sh.rows[t.Name][uuids[1]]
+	ra, rb := Row{}, Row{}
+	for _, c := range idx {
+		ra[c], rb[c] = nativeToOvsValue(b[c]), nativeToOvsValue(a[c])
+	}
+	ops := []OperationJ{{Op: "update", Table: t.Name, Row: ra, Where: byUUID(uuids[0])}, {Op: "update", Table: t.Name, Row: rb, Where: byUUID(uuids[1])}}
+	if g.rng.Intn(3) == 0 { // one-way move: the first row takes a fresh value, the second takes the first's old value
+		fresh := Row{}
+		for _, c := range idx {
+			cs := t.Col(c)
+			fresh[c] = nativeToOvsValue(g.genColValue(*cs))
+		}
+		ops = []OperationJ{{Op: "update", Table: t.Name, Row: fresh, Where: byUUID(uuids[0])}, {Op: "update", Table: t.Name, Row: rb, Where: byUUID(uuids[1])}}
+	}
+	return ops
+}
+
+// genBackToDefault: one non-default, mutable column of an existing row returns to its default
+func (g *txnGen) genBackToDefault() (OperationJ, bool) {
+	tables := append([]TableSpec{}, g.ts.Spec.Tables...)
+	g.rng.Shuffle(len(tables), func(i, j int) { tables[i], tables[j] = tables[j], tables[i] })
+	for _, t := range tables {
+		var uuids []string
+		for u := range g.sh.rows[t.Name] {
+			uuids = append(uuids, u)
+		}
+		sort.Strings(uuids)
+		g.rng.Shuffle(len(uuids), func(i, j int) { uuids[i], uuids[j] = uuids[j], uuids[i] })
+		for _, u := range uuids {
+			row := g.sh.rows[t.Name][u]
+			cols := append([]ColSpec{}, t.Cols...)
+			g.rng.Shuffle(len(cols), func(i, j int) { cols[i], cols[j] = cols[j], cols[i] })
+			for _, c := range cols {
+				v := row[c.Name]
+				if c.Immutable || v == nil || v.Canon() == zeroValue(c.Type).Canon() || (c.Type.Kind != "atom" && c.Type.Min > 0) {
+					continue
+				}
+				if (v.K == 'S' || v.K == 'M') && g.rng.Intn(2) == 0 {
+					del := &Value{K: 'S', S: v.S}
+					if v.K == 'M' {
+						if g.rng.Intn(2) == 0 {
+							del = &Value{K: 'M', M: v.M}
+						} else {
+							ks := []Atom{}
+							for _, p := range v.M {
+								ks = append(ks, p[0])
+							}
+							del = &Value{K: 'S', S: ks}
+						}
+					}
+					return OperationJ{Op: "mutate", Table: t.Name, Where: byUUID(u), Mutations: []MutationJ{{Col: c.Name, Mutator: "delete", Val: del}}}, true
+				}
+				return OperationJ{Op: "update", Table: t.Name, Where: byUUID(u), Row: Row{c.Name: nativeToOvsValue(zeroValue(c.Type))}}, true
+			}
+		}
+	}
+	return OperationJ{}, false
+}
+
+// genIndexClaim: an insert whose index columns equal those of an existing row
+func (g *txnGen) genIndexClaim() (OperationJ, bool) {
+	t, uuids, ok := g.indexedTable(1)
+	if !ok {
+		return OperationJ{}, false
+	}
+	idx := t.Indexes[g.rng.Intn(len(t.Indexes))]
+	src := g.sh.rows[t.Name][uuids[0]]
+	row := Row{}
+	for _, c := range t.Cols {
+		if g.rng.Intn(3) != 0 {
+			row[c.Name] = nativeToOvsValue(g.genColValue(c))
+		}
+	}
+	for _, c := range idx {
+		row[c] = nativeToOvsValue(src[c])
+	}
+	op := OperationJ{Op: "insert", Table: t.Name, Row: row, UUID: g.sh.fresh()}
+	g.inserted[t.Name] = append(g.inserted[t.Name], op.UUID)
+	return op, true
 }
